@@ -58,6 +58,30 @@ class Interp(ExprMixin, StmtMixin):
         self.unsupported = None
         self.dropped = set()
 
+    # ------------------------------------------------------------- T-EFFECT: no user-defined code on program objects
+    TAINTED = {"Val", "Callee"}
+
+    def tainted(self, val):
+        return isinstance(val, ZV) and base_tag(val.tag) in self.TAINTED and getattr(val, "truth", None) is None
+
+    def effect(self, kind, silent_if, node=None):
+        """The operation dispatches to user-defined code unless `silent_if` holds on this path (C03)."""
+        if self.st.spec_mode or not getattr(self.contract, "effects_checked", True):
+            return
+        line = getattr(node, "lineno", 0) or self.cur_line
+        self.oblige("safe:effect:%s@%d" % (kind, line), silent_if, line,
+                    clause="%s on a program object runs user-defined code unless: %s" % (kind, z3.simplify(silent_if)))
+
+    def truthy(self, val, node=None):
+        if self.tainted(val):
+            # bool(x) calls __bool__ / __len__ of the object's class; only None is known to be silent
+            self.effect("truthiness", val.term == L.NONE if (val.tag or "").startswith("Opt[") else z3.BoolVal(False), node)
+        return as_bool(val)
+
+    def exact_builtin_container(self, val):
+        from theories import values_th as VT
+        return z3.Or(*[VT.cls_of(val.term) == VT.CLS[n] for n in ("list", "set", "dict", "defaultdict", "tuple")])
+
     # ------------------------------------------------------------- branching
     def branch(self, cond, line=0, tag=""):
         st = self.st
@@ -463,6 +487,8 @@ class Interp(ExprMixin, StmtMixin):
         if is_prim_str(v):
             return ZI(z3.Length(as_str(v)))
         if isinstance(v, ZV):
+            if self.tainted(v):
+                self.effect("len", self.exact_builtin_container(v), node)
             h = R.METHODS.get((base_tag(v.tag), "__len__"))
             if h:
                 return h(self, v, [], {}, None)
@@ -655,18 +681,24 @@ class Interp(ExprMixin, StmtMixin):
         raise Unsupported(".get on %r" % (recv,))
 
     def m_keys(self, recv, args, kwargs, bm, node):
+        if self.tainted(recv):
+            self.effect("keys()", self.exact_builtin_container(recv), node)
         if isinstance(recv, PyDict):
             return PySeq([k for k, _ in recv.items], "list")
         et = self.elem_tag(recv)
         return ZV(recv.term, "Seq[%s]" % et if et else "seq")
 
     def m_values(self, recv, args, kwargs, bm, node):
+        if self.tainted(recv):
+            self.effect("values()", self.exact_builtin_container(recv), node)
         if isinstance(recv, PyDict):
             return PySeq([v for _, v in recv.items], "list")
         vt = self.val_tag(recv)
         return ZV(L.dict_values(recv.term), "Seq[%s]" % vt if vt else "seq")
 
     def m_items(self, recv, args, kwargs, bm, node):
+        if self.tainted(recv):
+            self.effect("items()", self.exact_builtin_container(recv), node)
         if isinstance(recv, PyDict):
             return PySeq([PySeq([k, v]) for k, v in recv.items], "list")
         kt, vt = self.elem_tag(recv), self.val_tag(recv)
